@@ -193,7 +193,9 @@ func (d *Decoder) stepHelper_acceptKV(t string, majorByte byte, tokenSlot *Token
 		d.pushPhase(d.step_acceptArrValueOrBreak)
 		return false, nil
 	case 'n':
-		d.r.Readnzc(3) // FIXME must check these equal "ull"!
+		if err := d.expectLiteralRemainder("ull"); err != nil {
+			return true, err
+		}
 		tokenSlot.Type = TNull
 		return true, nil
 	case '"':
@@ -201,12 +203,16 @@ func (d *Decoder) stepHelper_acceptKV(t string, majorByte byte, tokenSlot *Token
 		tokenSlot.Str, err = d.decodeString()
 		return true, err
 	case 'f':
-		d.r.Readnzc(4) // FIXME must check these equal "alse"!
+		if err := d.expectLiteralRemainder("alse"); err != nil {
+			return true, err
+		}
 		tokenSlot.Type = TBool
 		tokenSlot.Bool = false
 		return true, nil
 	case 't':
-		d.r.Readnzc(3) // FIXME must check these equal "rue"!
+		if err := d.expectLiteralRemainder("rue"); err != nil {
+			return true, err
+		}
 		tokenSlot.Type = TBool
 		tokenSlot.Bool = true
 		return true, nil
@@ -220,6 +226,22 @@ func (d *Decoder) stepHelper_acceptKV(t string, majorByte byte, tokenSlot *Token
 	default:
 		return true, fmt.Errorf("invalid char while expecting start of %s: %s", t, byteToString(majorByte))
 	}
+}
+
+// Consume the rest of a literal (null, true, false) whose first byte has
+// already been eaten, checking that it is spelled as expected.
+func (d *Decoder) expectLiteralRemainder(rest string) error {
+	bs, err := d.r.Readnzc(len(rest))
+	if err == io.EOF {
+		return io.ErrUnexpectedEOF
+	}
+	if err != nil {
+		return err
+	}
+	if string(bs) != rest {
+		return fmt.Errorf("invalid literal: expected %q, got %q", rest, bs)
+	}
+	return nil
 }
 
 var byteToStringMap = map[byte]string{
